@@ -190,6 +190,17 @@ class _RootNameCollector(cst.CSTVisitor):
         node.visit(collector)
         return collector.names
 
+    def visit_Lambda(self, node: cst.Lambda) -> bool:  # noqa: N802
+        # The parameters of a lambda are bound by the lambda itself: inside its body
+        # they are not reads of surrounding names (``lambda *args, **kwargs: args``).
+        inner = _RootNameCollector()
+        node.body.visit(inner)
+        self.names.update(inner.names - set(_params_names(node.params)))
+        for param in (*node.params.params, *node.params.kwonly_params):
+            if param.default is not None:
+                param.default.visit(self)
+        return False
+
     def visit_AssignTarget(self, node: cst.AssignTarget) -> bool:  # noqa: N802
         self._in_target += 1
         return True
